@@ -200,6 +200,51 @@ Proof.
     apply K; [assumption | lia].
 Qed.
 
+(* ---------- which tensor each programmed add/sub scale reaches ---------- *)
+(* for both operand orders the 32-bit pair reaches the IFM exactly when the IFM has the smaller scale *)
+Lemma ew_operand_choice_lemma ifm ifm2 rev :
+  ifm_gets_opa (ew_scale_mode ifm ifm2 rev) rev = dy_ltb ifm ifm2.
+Proof. unfold ifm_gets_opa, ew_scale_mode. destruct rev, (dy_ltb ifm ifm2); reflexivity. Qed.
+
+(* x / (2 x) evaluated in binary64 is exactly 1/2 ... *)
+Lemma fl_div_half a : 0 < dm a -> fl_div 53 a (fl_mul_pow2 a 1) = Dy (2 ^ 52) (de a - (de a + 1) - 52).
+Proof.
+  intros H. unfold fl_div, fl_mul_pow2, round_ratio. cbn [dm de].
+  destruct (Z.leb_spec (dm a) 0); [lia|]. cbn [orb].
+  replace (53 + 2 + Z.log2 (dm a) - Z.log2 (dm a)) with 55 by lia.
+  change (Z.max 55 0) with 55. change (Z.max (- 55) 0) with 0. rewrite Z.pow_0_r, Z.mul_1_r.
+  rewrite (Z.mul_comm (dm a) (2 ^ 55)). rewrite Z.div_mul by lia. rewrite Z.mod_mul by lia.
+  change (Z.log2 (2 ^ 55) + 1 - 53) with 3. vm_compute (2 ^ 55 / 2 ^ 3). vm_compute (2 ^ 55 mod 2 ^ 3).
+  cbn [Z.eqb negb]. vm_compute (2 ^ (3 - 1) <? 0). cbn [orb andb]. vm_compute (0 =? 2 ^ (3 - 1)). cbn [andb orb].
+  f_equal. lia.
+Qed.
+
+(* ... whose reference multiplier is (2^30, 0): the value 1/2 the hardware realises by the shorter shift *)
+Lemma tfl_of_half e : tfl_quantize_multiplier (Dy (2 ^ 52) (e - 52)) = if e + 1 <? -31 then (0, 0) else (2 ^ 30, e + 1).
+Proof.
+  rewrite tfl_pos by (vm_compute; reflexivity).
+  assert (qn (2 ^ 52) = 2 ^ 30) as -> by (vm_compute; reflexivity).
+  assert (vshift (2 ^ 52) (e - 52) = 31 - (e + 1)) as -> by (unfold vshift; change (Z.log2 (2 ^ 52)) with 52; change (rnd (2 ^ 52)) with 0; lia).
+  replace (31 - (31 - (e + 1))) with (e + 1) by lia. reflexivity.
+Qed.
+
+Lemma ew_per_tensor_lemma ifm ifm2 out ls rev :
+  0 < dm ifm -> 0 < dm ifm2 ->
+  let smode := ew_scale_mode ifm ifm2 rev in
+  let '(t1, t2, _) := tfl_add_params ifm ifm2 out ls in
+  (dy_ltb ifm ifm2 = true -> ifm_gets_opa smode rev = true /\ t2 = (2 ^ 30, 0)) /\
+  (dy_ltb ifm ifm2 = false -> ifm_gets_opa smode rev = false /\ t1 = (2 ^ 30, 0)).
+Proof.
+  intros H1 H2 smode. subst smode. rewrite ew_operand_choice_lemma. unfold tfl_add_params, dy_max.
+  destruct (dy_ltb ifm ifm2) eqn:E.
+  - split; [|discriminate]. intros _. split; [reflexivity|].
+    rewrite fl_div_half by assumption. replace (de ifm2 - (de ifm2 + 1) - 52) with (-1 - 52) by lia.
+    rewrite tfl_of_half. reflexivity.
+  - split; [discriminate|]. intros _. split; [reflexivity|].
+    rewrite fl_div_half by assumption. replace (de ifm - (de ifm + 1) - 52) with (-1 - 52) by lia.
+    rewrite tfl_of_half. reflexivity.
+Qed.
+
 (* ---------- the accuracy statement over the rationals ---------- *)
 Definition dy_Q (d : dyadic) : Q := (inject_Z (dm d) * Qpower 2 (de d))%Q.
 Definition pair_Q (q s : Z) : Q := (inject_Z q * Qpower 2 (- s))%Q.
@@ -267,4 +312,14 @@ Example conv_packed_ex :
   conv_packed_scale 24 false (Dy 13421773 (-27)) (Dy 10066330 (-25)) (Dy 13421773 (-26)) = (1288490221, 33) /\
   conv_packed_scale 53 true (Dy 13421773 (-27)) (Dy 10066330 (-25)) (Dy 13421773 (-26)) = (19661, 17) /\
   tfl_reduce (1288490240, -2) = (19661, 17).
+Proof. vm_compute. repeat split; reflexivity. Qed.
+
+(* a broadcast first operand (reversed order) with the larger scale, float32 0.3 against 0.1: operand A is the IFM2
+   (scale 0.3), the pair must go to operand B = the IFM (0.1): scale mode 2; with the operands in plain order: mode 1 *)
+Example ew_per_tensor_ex :
+  ew_scale_mode (Dy 13421773 (-27)) (Dy 10066330 (-25)) true = 2 /\
+  ifm_gets_opa 2 true = true /\
+  ew_scale_mode (Dy 13421773 (-27)) (Dy 10066330 (-25)) false = 1 /\
+  ew_scale_mode (Dy 10066330 (-25)) (Dy 13421773 (-27)) true = 1 /\
+  ifm_gets_opa 1 true = false.
 Proof. vm_compute. repeat split; reflexivity. Qed.
